@@ -1,5 +1,6 @@
 import Knut.Properties.C01
 import Knut.FactsAgree.TransReportTotals
+import Knut.FactsAgree.TransQuery
 /-!
 # C01 (the Delta clause) on the generated definitions
 
@@ -112,6 +113,280 @@ theorem C01_delta_zero_go_partial (cur : String → Bool) (part : date.Partition
   intro op hop c hc d hd
   rw [hcells op hop c hc d hd, hlog]
   exact C01.C01_delta_cells_zero cfg hu days hp st hrun byCommodity c d
+
+/-! ## the log of `Query.Into`
+
+`Processor.Process` calls the `Posting` closure of `Query.Into(report)` for every posting of every transaction that reaches the query
+stage; the closure's calls `report.Insert(k, v)` are the LOG the theorems above start from.  `queryAllGo` folds the translated closure
+over a list of Go transactions; `queryAll_model` composes `TransQuery.Query_Posting_model` over it: the entries of the log are the model's
+`queryTx` of the transactions, in order.  With it the hypothesis `hlog` of `C01_delta_zero_go_partial` is reduced to: the Go transactions
+that reach the query stage stand for the model's (`TRel`: dates, postings; `Src` pointers and descriptions arbitrary). -/
+
+/-- the `Posting` closure over the postings of one transaction (the first error or panic ends the run) -/
+def queryPostings (tg : transaction.Transaction) :
+    journal.Query.Into.State → List posting.Posting → GoSem.Outcome (journal.Query.Into.State × Option GoSem.Error)
+  | st, [] => .ok (st, none)
+  | st, b :: bs =>
+    (journal.Query.Into.Posting st tg b).bind fun r =>
+      match r.2 with
+      | none => queryPostings tg r.1 bs
+      | some e => .ok (r.1, some e)
+
+/-- … over the transactions that reach the query stage, in order -/
+def queryAllGo : journal.Query.Into.State → List transaction.Transaction →
+    GoSem.Outcome (journal.Query.Into.State × Option GoSem.Error)
+  | st, [] => .ok (st, none)
+  | st, tg :: tgs =>
+    (queryPostings tg st tg.Postings).bind fun r =>
+      match r.2 with
+      | none => queryAllGo r.1 tgs
+      | some e => .ok (r.1, some e)
+
+/-- how `cmd/commands/balance.go` (not translated) sets up `Where` and `Select` for a model configuration: `Where` computes the two
+filters, `Select` the account mapping and the column; both look at a transaction through its date only -/
+structure QueryFor (cur : String → Bool) (cfg : BalCfg) (q : journal.Query) (w : amounts.Key → Bool) (s : amounts.Key → amounts.Key) :
+    Prop where
+  where_ : q.Where = some (fun k => GoSem.Outcome.ok (w k))
+  select : q.Select = some (fun k => GoSem.Outcome.ok (s k))
+  val : (q.Valuation = GoZero.zero) ↔ cfg.valuation = none
+  hw : ∀ (tg : transaction.Transaction) (src : GoSem.Ref) (p : Knut.Posting),
+    w (Knut.FactsAgree.TransQuery.keyOf q.Valuation tg (Knut.FactsAgree.TransPosting.postingGo cur src p)) =
+      (cfg.accountFilter p.account.name && cfg.commodityFilter p.commodity)
+  hs : ∀ (tg : transaction.Transaction) (t : Knut.Transaction) (src : GoSem.Ref) (p : Knut.Posting) (amt : Rat), tg.Date = t.date →
+    entryOf (s (Knut.FactsAgree.TransQuery.keyOf q.Valuation tg (Knut.FactsAgree.TransPosting.postingGo cur src p)), amt) =
+      (mapAccount cfg p.account).map fun a =>
+        { date := alignIn cfg.periods t.date, account := a, commodity := p.commodity, amount := amt }
+
+open Knut.FactsAgree.TransProcess (AllRel PRel TRel) in
+theorem queryPostings_model {cur : String → Bool} {cfg : BalCfg} {w : amounts.Key → Bool} {s : amounts.Key → amounts.Key}
+    (tg : transaction.Transaction) (t : Knut.Transaction) (hdate : tg.Date = t.date) :
+    ∀ (bs : List posting.Posting) (ps : List Knut.Posting), AllRel (PRel cur) bs ps →
+      ∀ (st : journal.Query.Into.State), QueryFor cur cfg st.query w s →
+      ∃ st', queryPostings tg st bs = .ok (st', none) ∧ st'.query = st.query ∧
+        esOf st'.c = esOf st.c ++ ps.filterMap (Balance.queryPosting cfg t) := by
+  intro bs ps hrel
+  induction hrel with
+  | nil => intro st _; exact ⟨st, rfl, rfl, by simp⟩
+  | @cons b p bs ps hb _ ih =>
+    intro st hq
+    have hb' : b = Knut.FactsAgree.TransPosting.postingGo cur b.Src p := hb
+    obtain ⟨st1, h1, hq1, he1⟩ := Knut.FactsAgree.TransQuery.Query_Posting_model cur cfg st w s hq.where_ hq.select hq.val tg t b.Src p
+      (hq.hw tg b.Src p) (fun amt => hq.hs tg t b.Src p amt hdate)
+    rw [← hb'] at h1
+    obtain ⟨st2, h2, hq2, he2⟩ := ih st1 (by rw [hq1]; exact hq)
+    refine ⟨st2, ?_, by rw [hq2, hq1], ?_⟩
+    · simp only [queryPostings, h1, GoSem.Outcome.bind]
+      exact h2
+    · unfold esOf at he2 ⊢
+      rw [he2, he1, List.filterMap_cons]
+      cases Balance.queryPosting cfg t p <;> simp
+
+open Knut.FactsAgree.TransProcess (AllRel PRel TRel) in
+/-- **the log of `Query.Into` over the transactions that reach it**: no error, no panic (`Where`/`Select` are set), the query is
+unchanged, and the entries `Report.Insert` keeps of the log grow by exactly the model's `queryTx` of every transaction, in order -/
+theorem queryAll_model {cur : String → Bool} {cfg : BalCfg} {w : amounts.Key → Bool} {s : amounts.Key → amounts.Key} :
+    ∀ (tgs : List transaction.Transaction) (ts : List Knut.Transaction), AllRel (TRel cur) tgs ts →
+      ∀ (st : journal.Query.Into.State), QueryFor cur cfg st.query w s →
+      ∃ st', queryAllGo st tgs = .ok (st', none) ∧ st'.query = st.query ∧
+        esOf st'.c = esOf st.c ++ ts.flatMap (Balance.queryTx cfg) := by
+  intro tgs ts hrel
+  induction hrel with
+  | nil => intro st _; exact ⟨st, rfl, rfl, by simp⟩
+  | @cons tg t tgs ts ht _ ih =>
+    intro st hq
+    obtain ⟨st1, h1, hq1, he1⟩ := queryPostings_model (w := w) (s := s) tg t ht.1 tg.Postings t.postings ht.2.2.1 st hq
+    obtain ⟨st2, h2, hq2, he2⟩ := ih st1 (by rw [hq1]; exact hq)
+    refine ⟨st2, ?_, by rw [hq2, hq1], ?_⟩
+    · simp only [queryAllGo, h1, GoSem.Outcome.bind]
+      exact h2
+    · rw [he2, he1, List.flatMap_cons, List.append_assoc]
+      rfl
+
+/-- the transactions that reach the query stage in a run of the model, all days in order (`Balance.run` with the entries left out) -/
+def runTxs (cfg : BalCfg) : BalState → List Day → Except BalErr (List Knut.Transaction)
+  | _, [] => .ok []
+  | st, d :: ds =>
+    match Balance.dayTxs cfg st d with
+    | .error e => .error e
+    | .ok (st1, txs) =>
+      match runTxs cfg { st1 with entries := st1.entries ++ txs.flatMap (Balance.queryTx cfg) } ds with
+      | .error e => .error e
+      | .ok rest => .ok (txs ++ rest)
+
+/-- the stages before the query do not touch the entries (the argument inside `Proofs/Balance.sumSel_day`, as a lemma) -/
+theorem dayTxs_entries (cfg : BalCfg) (st st1 : BalState) (d : Day) (txs : List Knut.Transaction)
+    (hd : Balance.dayTxs cfg st d = .ok (st1, txs)) : st1.entries = st.entries := by
+  unfold Balance.dayTxs at hd
+  simp only [bind, Except.bind] at hd
+  cases hc : Balance.checkStage st d with
+  | error e => rw [hc] at hd; cases hd
+  | ok s1 =>
+    rw [hc] at hd; simp only at hd
+    have e1 : s1.entries = st.entries := by
+      unfold Balance.checkStage at hc
+      split at hc
+      · injection hc with hc; subst hc; rfl
+      · cases hc
+    cases hv : Balance.valuationStage cfg s1 d with
+    | error e => rw [hv] at hd; cases hd
+    | ok r2 =>
+      obtain ⟨s2, t2⟩ := r2
+      rw [hv] at hd; simp only at hd
+      injection hd with hd
+      have e2 : s2.entries = s1.entries := by
+        unfold Balance.valuationStage at hv
+        cases hval : cfg.valuation with
+        | none => rw [hval] at hv; simp only at hv; injection hv with hv; injection hv with hv _; subst hv; rfl
+        | some v =>
+          rw [hval] at hv; simp only [bind, Except.bind] at hv
+          cases hp : Balance.pricesDay v s1 d with
+          | error e => rw [hp] at hv; cases hv
+          | ok sp =>
+            rw [hp] at hv; simp only at hv
+            have e3 : sp.entries = s1.entries := by
+              unfold Balance.pricesDay at hp
+              simp only [bind, Except.bind] at hp
+              split at hp
+              · cases hp
+              · injection hp with hp; subst hp; rfl
+            unfold Balance.valuateDay at hv
+            simp only [bind, Except.bind] at hv
+            split at hv
+            · cases hv
+            · split at hv
+              · cases hv
+              · injection hv with hv; injection hv with hv _; subst hv; exact e3
+      unfold Balance.closeStage at hd
+      split at hd
+      · injection hd with hd _; subst hd
+        have hacc : ∀ (ts : List Knut.Transaction) (s : BalState), (Balance.accumulate s ts).entries = s.entries := by
+          intro ts
+          unfold Balance.accumulate
+          induction ts with
+          | nil => intro s; rfl
+          | cons t rest ih =>
+            intro s
+            simp only [List.foldl_cons]
+            rw [ih]
+            generalize t.postings = ps
+            induction ps generalizing s with
+            | nil => rfl
+            | cons p ps ihp =>
+              simp only [List.foldl_cons]
+              rw [ihp]
+              split <;> rfl
+        rw [hacc, e2, e1]
+      · injection hd with hd _; subst hd; rw [e2, e1]
+
+theorem run_entries (cfg : BalCfg) : ∀ (days : List Day) (st0 st : BalState), days.foldlM (Balance.day cfg) st0 = .ok st →
+    ∃ all, runTxs cfg st0 days = .ok all ∧ st.entries = st0.entries ++ all.flatMap (Balance.queryTx cfg) := by
+  intro days
+  induction days with
+  | nil =>
+    intro st0 st h
+    simp only [List.foldlM_nil, pure, Except.pure] at h
+    injection h with h; subst h
+    exact ⟨[], rfl, by simp⟩
+  | cons d rest ih =>
+    intro st0 st h
+    simp only [List.foldlM_cons, bind, Except.bind] at h
+    cases hd : Balance.day cfg st0 d with
+    | error e => rw [hd] at h; cases h
+    | ok st1 =>
+      rw [hd] at h
+      simp only at h
+      unfold Balance.day at hd
+      simp only [bind, Except.bind] at hd
+      cases hx : Balance.dayTxs cfg st0 d with
+      | error e => rw [hx] at hd; cases hd
+      | ok r =>
+        obtain ⟨sx, txs⟩ := r
+        rw [hx] at hd
+        simp only at hd
+        injection hd with hd
+        subst hd
+        obtain ⟨all, ha, he⟩ := ih _ st h
+        refine ⟨txs ++ all, ?_, ?_⟩
+        · simp only [runTxs, hx, ha]
+        · rw [he, List.flatMap_append]
+          simp only [dayTxs_entries cfg st0 sx d txs hx, List.append_assoc]
+
+/-- **every value behind the Delta row is zero**, with the log produced by the translated `Query.Into`: the translated closure run
+over Go transactions that stand for the transactions reaching the query stage in a run of the model (paired transactions, unfiltered), then
+`Totals` and `Plus` on the report these inserts leave, for every admissible family of iteration orders.
+Still partial in `hrel`: that the Go transactions after the translated stages `check`/`ComputePrices`/`Valuate`/`Filter`/`CloseAccounts`
+(per day proved equal to the model in `FactsAgree/TransProcess.lean`) stand for the model's is not composed over the journal. -/
+theorem C01_delta_zero_query_go_partial (cur : String → Bool) (part : date.Partition) (byCommodity : Bool)
+    (cfg : BalCfg) (hu : Unfiltered cfg) (days : List Day) (hp : C01.PairedDays days) (st : BalState)
+    (hrun : Balance.run cfg days = .ok st) (all : List Knut.Transaction) (hall : runTxs cfg {} days = .ok all)
+    (q : journal.Query) (w : amounts.Key → Bool) (s : amounts.Key → amounts.Key)
+    (hq : QueryFor cur cfg (journal.Query.Into.init q).query w s)
+    (tgs : List transaction.Transaction) (hrel : Knut.FactsAgree.TransProcess.AllRel (Knut.FactsAgree.TransProcess.TRel cur) tgs all) :
+    ∃ qs, queryAllGo (journal.Query.Into.init q) tgs = .ok (qs, none) ∧ esOf qs.c = st.entries ∧
+      ((∀ e ∈ qs.c, e.1.Commodity = Knut.FactsAgree.TransPosting.commodityGo cur e.1.Commodity.name ∧ e.1.Commodity.name ≠ "") →
+        ∀ (o1 o2 o4 o5 : List String → List amounts.Key) (ord3 ord6 : List String → List String),
+          Orders (sec true qs.c) [] (mfR byCommodity) [] (reportOf part qs.c).AL o1 o2 ord3 →
+          Orders (sec false qs.c) [] (mfR byCommodity) [] (reportOf part qs.c).EIE o4 o5 ord6 →
+          ∃ al eie, balance.Report.Totals (reportOf part qs.c) (pureFn (mfR byCommodity)) o1 o2 ord3 o4 o5 ord6 =
+              GoSem.Outcome.ok (reportOf part qs.c, al, eie) ∧
+            ∀ op : List amounts.Key, op.Perm (AMap.keys eie) →
+              ∀ (c : Option Knut.Commodity), (∀ s, c = some s → s ≠ "") → ∀ d : Int, d ≠ 0 →
+                AMap.get (amounts.Amounts.Plus al eie op) (amounts.DateCommodityKey d (comGo cur c)) 0 = 0) := by
+  obtain ⟨qs, h1, _, he⟩ := queryAll_model tgs all hrel (journal.Query.Into.init q) hq
+  obtain ⟨all', ha', hent⟩ := run_entries cfg days {} st hrun
+  rw [hall] at ha'
+  injection ha' with ha'
+  subst ha'
+  have hc0 : esOf (journal.Query.Into.init q).c = [] := by
+    rw [Knut.FactsAgree.TransQuery.Query_init_agrees]; rfl
+  have hlog : esOf qs.c = st.entries := by
+    rw [he, hc0, hent]
+  refine ⟨qs, h1, hlog, ?_⟩
+  intro hcom o1 o2 o4 o5 ord3 ord6 h1' h2'
+  exact C01_delta_zero_go_partial cur part qs.c byCommodity hcom o1 o2 o4 o5 ord3 ord6 h1' h2' cfg hu days hp st hrun hlog
+
+/-! ### Non-vacuity of `QueryFor`: an unfiltered, unmapped report over the single period 1 … 10; `Where` accepts everything, `Select`
+replaces the date by the period end `Align` gives (the zero time after the window) -/
+
+def cfg0 : BalCfg := { span := ⟨1, 10⟩, periods := [⟨1, 10⟩] }
+def sel0 (k : amounts.Key) : amounts.Key := { k with Date := (alignIn [⟨1, 10⟩] k.Date).getD 0 }
+def q0 : journal.Query :=
+  { Select := some (fun k => GoSem.Outcome.ok (sel0 k)), Where := some (fun _ => GoSem.Outcome.ok true), Valuation := GoZero.zero }
+
+theorem accountGo_ne_zero (a : Knut.Account) : Knut.FactsAgree.TransAccount.accountGo a ≠ GoZero.zero := by
+  intro h
+  have hs : a.segments = [] := congrArg account.Account.segments h
+  have ht := congrArg account.Account.accountType h
+  cases a with
+  | mk segs =>
+    simp only at hs
+    subst hs
+    revert ht
+    decide
+
+example (cur : String → Bool) : QueryFor cur cfg0 (journal.Query.Into.init q0).query (fun _ => true) sel0 := by
+  have hq : (journal.Query.Into.init q0).query = q0 := by
+    rw [Knut.FactsAgree.TransQuery.Query_init_agrees]; rfl
+  rw [hq]
+  refine ⟨rfl, rfl, ⟨fun _ => rfl, fun _ => rfl⟩, fun _ _ _ => rfl, ?_⟩
+  intro tg t src p amt hdate
+  have hm : mapAccount cfg0 p.account = some p.account := by
+    simp [mapAccount, cfg0, shorten, mappingLevel]
+  rw [hm]
+  unfold entryOf
+  simp only [sel0, Knut.FactsAgree.TransQuery.keyOf, Knut.FactsAgree.TransPosting.postingGo, accountGo_ne_zero, if_false, hdate,
+    Option.map_some, Option.some.injEq]
+  have hal : alignIn cfg0.periods t.date = alignIn [⟨1, 10⟩] t.date := rfl
+  rw [hal]
+  have hd : (if (alignIn [⟨1, 10⟩] t.date).getD 0 = 0 then none else some ((alignIn [⟨1, 10⟩] t.date).getD 0))
+      = alignIn [⟨1, 10⟩] t.date := by
+    unfold alignIn
+    by_cases h10 : (10 : Int) < t.date <;> simp [List.find?, h10]
+  rw [hd]
+  cases p with
+  | mk acc oth com qty val =>
+    cases acc
+    rfl
 
 /-! ### Non-vacuity: the empty log (a journal without bookings): every order family is admissible, both totals are empty, every Delta
 cell is 0 -/
